@@ -278,9 +278,11 @@ def run_c15(cfg: HCfg, c: Ctx) -> Any:
     labels = ["n0", "n1", "n2"]
     shape = c.choose(3, "program")
     flavour = cfg.flavours[c.choose(len(cfg.flavours), "flavour")] if len(cfg.flavours) > 1 else cfg.flavours
-    OPS = ["call1", "call2", "failcall", "exec_new", "exec_new:n1", "exec_run", "exec_failrun", "compose", "config", "setup:n0", "setup:n2"]
+    OPS = ["call1", "call2", "failcall", "exec_new", "exec_new:n1", "exec_run", "exec_failrun", "compose", "config", "setup:n2", "setup:", "setup:[]", "exec_new:!cache"]
+    if cfg.ops == "noargsetup":  # (the async part: without the two setup forms that name a target list)
+        OPS = [o for o in OPS if o not in ("setup:n2", "setup:[]")]
     if cfg.ops == "exec":
-        OPS = ["call1", "exec_new", "exec_new:n1", "exec_run", "exec_failrun"]
+        OPS = ["call1", "exec_new", "exec_new:n1", "exec_run", "exec_failrun", "exec_new:!cache"]
     hist = [OPS[c.choose(len(OPS), "op")] for _ in range(cfg.length)] + [("call1", "call2")[c.choose(2, "last")]]
     fail_node = labels[c.choose(3, "failnode")] if any("fail" in o for o in hist) else None
     # an executor operation needs an executor
@@ -339,7 +341,10 @@ def run_c15(cfg: HCfg, c: Ctx) -> Any:
     data: Dict[str, Any] = {"program": shape, "history": hist, "fail_node": fail_node, "flavour": flavour}
     ex: Any = None
     ex_sel: Optional[str] = None
+    ex_badcache = False
     ex_state = "none"  # none | fresh | succeeded | failed
+    fd, bad_parent = tempfile.mkstemp(prefix="sxc15")
+    os.close(fd)
     for step, op in enumerate(hist):
         A, B = c.val("a%d" % step), c.val("b%d" % step)
         entered.clear()
@@ -383,8 +388,16 @@ def run_c15(cfg: HCfg, c: Ctx) -> Any:
             if step == len(hist) - 1:
                 c.cover("w_final_call")
         elif name == "exec_new":
-            ex = d.executor(target_nodes=[arg]) if arg else d.executor()
-            ex_sel = arg or None
+            if arg == "!cache":
+                # an executor whose cache file cannot be written (the parent of the path is a regular file): the run fails
+                # after its nodes ran, at the point where the results are stored
+                ex = d.executor(cache_in=os.path.join(bad_parent, "cache.pkl"))
+                ex_sel = None
+                ex_badcache = True
+            else:
+                ex = d.executor(target_nodes=[arg]) if arg else d.executor()
+                ex_sel = arg or None
+                ex_badcache = False
             ex_state = "fresh"
         elif name in ("exec_run", "exec_failrun"):
             if ex is None:
@@ -400,6 +413,16 @@ def run_c15(cfg: HCfg, c: Ctx) -> Any:
                 state["fail"] = None
             only = None if ex_sel is None else {"n0", "n1"} if shape != 2 else {"n1"}
             want = reference((A, B), only)
+            if ex_badcache and ex_state != "succeeded" and out[0] == "raise" and isinstance(out[1], OSError):
+                # the fault injected at the cache write: the run counts as failed (a later run refuses or starts from scratch)
+                # ("the user repairs the path": from now on the file can be written)
+                ex_state = "failed"
+                c.cover("w_cache_write_failed")
+                if os.path.isfile(bad_parent):
+                    os.unlink(bad_parent)
+                continue
+            if ex_badcache and out[0] == "value" and os.path.isfile(bad_parent):
+                c.check(False, "an executor run whose cache file cannot be written returned normally", prop="C15", data=d2)
             if ex_state == "succeeded":
                 c.check(out[0] == "raise" and isinstance(out[1], TawaziUsageError), "an executor that already ran successfully ran again: %r" % (out,), prop="C15", data=d2)
                 c.cover("w_refused_rerun")
@@ -433,7 +456,8 @@ def run_c15(cfg: HCfg, c: Ctx) -> Any:
         elif name == "setup":
             # the programs have no setup node: DAG.setup(target_nodes=[...]) has nothing to run and nothing to remember
             try:
-                r = d.setup(target_nodes=[arg])
+                # ("setup:" is the argument-less d.setup(), "setup:[]" an empty target list)
+                r = d.setup() if arg == "" else d.setup(target_nodes=[]) if arg == "[]" else d.setup(target_nodes=[arg])
                 if hasattr(r, "__await__"):
                     import asyncio
 
@@ -449,6 +473,12 @@ def run_c15(cfg: HCfg, c: Ctx) -> Any:
             c.check(out[0] == "value", "setup(target_nodes=[%s]) raised %r on a DAG without setup nodes" % (arg, out[1]), prop="C15", data=d2)
             c.check(not entered, "setup(target_nodes=[%s]) ran %s on a DAG without setup nodes" % (arg, entered), prop="C15", data=d2)
             c.cover("w_setup_op")
+    import shutil
+
+    if os.path.isdir(bad_parent):
+        shutil.rmtree(bad_parent, ignore_errors=True)
+    elif os.path.exists(bad_parent):
+        os.unlink(bad_parent)
     if cfg.twin:
         c.check(False, "reachability twin: the end of the harness is reachable", prop="TWIN")
     c.cover("states", hash(repr(data)))
